@@ -167,5 +167,16 @@ PROPS['C10'] = dict(
     budget={'quick': 20, 'thorough': 300},
     trusted=[T['T6'], T['T7'], 'T8 a file reads back as its lines in order'],
     assumptions=['_import_from_file section logic and 2-agent embedding: bounded stand-in only', 'token strings abstracted through the shape table'])
+PROPS['C08'] = dict(
+    title='Generated files are well-formed instances of the requested type and parameters',
+    functions=[GS + 'create_quotas', SPA + 'create_project_lecturers', GS + 'create_ties_indicators', GS + 'create_pref_lists_original', GS + 'create_linear_distribution',
+               GS + 'create_string_pref'] + [(IOP + 'parse', {'argv_fixed': {'matchingproblem': mp}}) for mp in ('ha', 'sm', 'hr', 'spa')],
+    lemmas=['C08/shares', 'C08/spread-monotone', 'C17/sum-positive', 'C17/scaled-sum', 'C13/writer-shape', 'LISTSET/empty-append', 'LISTSET/permute', 'LISTSET/iterate'], level='other',
+    level_text='proved for all parameters: quotas / targets / projects per lecturer are the even spreading (share k = total // n + [k < total % n]: larger shares first, spread <= 1, sum = total, monotone in the total hence lower <= target <= upper pointwise); first-side lists have between pmin and pmax distinct agents in range and the RNG preconditions hold (positive weights summing to one, k <= n2); tie indicators are 0 / 1 and constant for probability 0 / 1; the tie writer brackets maximal runs; every accepted argument vector satisfies the bounds the generators rely on (parse postconditions, all four types).  NOT proved deductively (bounded stand-in): the text assembly in create_instance (both generators), generate_instances (which list is written where, file names 0..k-1) and "every length in [pmin,pmax] can occur" (T10)',
+    harness=True, bound='n <= 6 agents per side, numinst <= 2, tie probabilities {0, 0.3/0.4, 1}, skew {0.5, 1, 3, 10}',
+    budget={'quick': 20, 'thorough': 300},
+    trusted=['T10 numpy / random: randint in [a,b), choice(replace=False) returns distinct elements of its argument, choice never returns a value of probability 0, shuffle permutes, np.sum / array division as documented',
+             'T8 file I/O', 'T9 argparse', 'int(a / b) == a // b for a + b < 2**53 (DESIGN 3.1)'],
+    assumptions=['create_instance / generate_instances text assembly: bounded stand-in only'])
 NOT_APPLICABLE = {}
 NOTES = 'see DESIGN.md; ./check Cxx --tier quick|thorough; exit 0 held / 1 VIOLATION / 2 undecided / 3 checker error'
